@@ -6,8 +6,8 @@ Import ListNotations.
 Open Scope Z_scope.
 
 Definition get_items_to_delete (now : Z) (items : list item) (bytes_limit : option Z) (items_limit : option Z) (age_limit : option Z) : result (list item) :=
-  if (negb (negb (is_nil items))) then (Ok ([])) else (let size := (sum_map (fun item => isize item) items) in
-  bind (match bytes_limit with
+  let size := (sum_map (fun item => isize item) items) in
+  if (negb (negb (size =? 0))) then (Ok ([])) else (bind (match bytes_limit with
   | Some bytes_limit => (let to_delete_size := (size - bytes_limit) in
   Ok to_delete_size)
   | None => (let to_delete_size := (0) in
@@ -26,7 +26,8 @@ Definition get_items_to_delete (now : Z) (items : list item) (bytes_limit : opti
   | None => (let deadline := None in
   Ok (None, deadline))
   end) (fun '(older_item, deadline) =>
-  bind ((if (to_delete_size <=? (0)) then (if (to_delete_items <=? (0)) then (match deadline with None => Ok true | Some deadline => bind (getvar older_item) (fun v_1 => Ok ((v_1 >? deadline))) end) else Ok false) else Ok false)) (fun c_2 => if c_2 then (Ok ([])) else (let items_to_delete := [] in
+  bind ((if (to_delete_size <=? (0)) then (if (to_delete_items <=? (0)) then (match deadline with None => Ok true | Some deadline => bind (getvar older_item) (fun v_1 => Ok ((v_1 >? deadline))) end) else Ok false) else Ok false)) (fun c_2 => if c_2 then (Ok ([])) else (let items := sort_by iatime items in
+  let items_to_delete := [] in
   let size_so_far := (0) in
   let items_so_far := (0) in
   bind ((fix loop (l__ : list item) (st__ : _) {struct l__} : result _ :=
